@@ -175,7 +175,8 @@ fn reentrant_debug_cells(ctx: &vh::explore::Ctx, stats: &mut Stats) {
                     k += 1;
                 }
             }
-            let got = reenter::run(steps, side_at);
+            // (an early return drops the mock with unmet expectations: that panic is part of the outcome)
+            let got = vh::obs::catch(|| reenter::run(steps, side_at)).and_then(|r| r);
             if got.as_ref() != Ok(&want) {
                 ctx.violation(
                     &format!("reentrant-debug/{steps}-steps/side-at-{side_at}"),
